@@ -284,27 +284,16 @@ def all_children_fact(m, pa, f, c, recv):
                     if ok:
                         return True, "count == children().len() with every increment under `%s` of the loop element" % pred
                     return False, "a counter is compared with children().len() but %s" % pred
-    # idiom (ii): children().iter().all(|t| t.state().is_completed()) holds at the write
-    from vlib import quant
-    for qn in quant.quantifiers(m, f):
-        if qn.kind != "forall" or qn.closure is None or qn.holds_at(f, c.b) is not True:
-            continue
-        r = pa.root(f, qn.source.args[0]) if qn.source.args else ("?",)
-        for _ in range(6):
-            if r[0] == "call" and re.search(r"::(iter|into_iter|deref|as_slice|as_ref|borrow)$", r[1]):
-                cc = Call(f, r[2])
-                r = pa.root(f, cc.args[0]) if cc.args else ("?",)
-                continue
-            break
-        if not (r[0] == "call" and r[1].endswith("Task::children")):
-            continue
-        if pa.root(f, Call(f, r[2]).args[0]) != recv:
-            continue
-        g_ = qn.closure
-        pred = _closure_state_pred(m, g_)
-        if pred in ("is_completed", "is_success"):
-            return True, "children().iter().all(|t| t.state().%s()) holds at the write" % pred
-        return False, "`all` over the children is tested, but its predicate is not is_completed / is_success of the element's state"
+    # idiom (ii): a quantifier over the tasks beneath it holds at the write: `children().iter().all(|t| ended(t) || hook(t))`,
+    # `!proc.tasks().iter().any(|t| !ended(t) && !hook(t) && t.parent() is self)`. Safety reading: a task beneath it that has
+    # not ended and is not a lifecycle-hook act (the property leaves those out) must keep the write from happening
+    from rules.common import wait_set
+    ws = wait_set(m, pa, f, c, recv)
+    if ws is not None:
+        v = ws["done"]({"ended": False, "hook": False, "beneath": True})
+        if v == {False}:
+            return True, "%s holds at the write: an open non-hook task beneath it keeps it from completing" % ws["how"]
+        return False, "%s is tested, but the write can happen while a task beneath it that has not ended (and is no hook act) exists" % ws["how"]
     # idiom (iii): the node has no child nodes
     for g in gs:
         r = g.root
@@ -560,7 +549,8 @@ def r6(cx):
         over_children = over_children or (src is not None and ((src[0][0] == "call" and src[0][1].endswith("Task::children")) or src[0][0] == "local"))
     cx.ob("C03.R6", "follows:descent-unconditional", bool(rec) and over_children and not bad,
           "`Task::follows` recurses into every child that is not itself a match, whatever its state (recursion guarded by %s)" % (bad or "nothing"), rec[0].loc if rec else fo.loc())
-    cx.floor("C03.R6", 6)
+    back_target_closed(cx, "C03.R6")
+    cx.floor("C03.R6", 7)
 
 
 
@@ -586,3 +576,56 @@ def r7(cx):
             cx.ob("C03.R7", key, not after,
                   "`%s` returns after it resumed a child inline%s" % (f.short, "" if not after else " - but goes on to %s: a child that finishes inside the resume has already had its parent reviewed, closed and the successor scheduled; the successor is started twice and the workflow can be reported completed while the second copy is open" % sorted({short_name(c.q) + " line %s" % c.line for c in after})), e.loc)
     cx.floor("C03.R7", 3)
+
+
+def back_target_closed(cx, rule):
+    m = cx.m
+    pa = Prov(m, "alias")
+    # Back: the step that is redone is not left open next to its successor. The target found by `backs` is usually a finished
+    # earlier step, but it can be an ancestor of the act (an act inside a branch sent back to the step holding the branch):
+    # then it is still running and nothing else closes it
+    from vlib.model import conditions_of
+    from rules.c01 import gdesc
+    up = m.one(r"^%s::update$" % TASK)
+    n_back = 0
+    for rc in [c for c in up.calls() if c.q.endswith("Context::redo_task")]:
+        tgt = pa.root(up, rc.args[1])
+        src = tgt
+        for _ in range(6):
+            if src[0] == "call" and re.search(r"(Try>::branch|ok_or|ok_or_else|unwrap|expect|clone)$", src[1]):
+                cc = Call(up, src[2])
+                src = pa.root(up, cc.args[0]) if cc.args else ("?",)
+                continue
+            break
+        if not (src[0] == "call" and src[1].endswith("Task::backs")):
+            continue        # the Cancel arm redoes a step it required to be `is_success`
+        n_back += 1
+        base = {gdesc(m, g) for g in conditions_of(m, up, rc.b, mode="value") if not g.neutral}
+        ok, why = False, "no write of a terminal state on the target before it is redone"
+        for w in up.calls():
+            if w.q != T.Q_SET_STATE or pa.root(up, w.args[0]) != tgt:
+                continue
+            v = pa.root(up, w.args[1])
+            if not (v[0] == "agg" and v[2] in T.TERMINAL) or rc.b not in up.reach_from([w.b]):
+                continue
+            extra = []
+            for g in conditions_of(m, up, w.b, mode="value"):
+                if g.neutral or gdesc(m, g) in base:
+                    continue
+                r = g.root
+                subject = None
+                if r[0] == "call" and T.STATE_PRED.match(r[1]):
+                    sr = pa.root(up, Call(up, r[2]).args[0])
+                    if sr[0] == "call" and sr[1] == T.Q_STATE:
+                        subject = pa.root(up, Call(up, sr[2]).args[0])
+                if not (subject == tgt and T.STATE_PRED.match(r[1]).group(1) == "is_completed" and g.truth is False):
+                    extra.append(gdesc(m, g))
+            if not extra:
+                ok, why = True, "written %s when it has not ended" % v[2]
+                break
+            why = "the closing write depends on %s" % extra
+        cx.ob(rule, "back:target-closed", ok,
+              "Back: the step task that is redone is closed first when it is still open (an enclosing step): %s" % why, rc.loc,
+              **({} if ok else {"consequence": "the old task of the step stays in Running for ever beneath a workflow that completes (and a workflow that waits for everything beneath it never ends)"}))
+    if n_back == 0:
+        cx.undecide(rule, "the Back arm's redo_task on the result of Task::backs was not found")
